@@ -174,7 +174,20 @@ func (e *Engine) call(fr *frame, st *State, in *ssa.Call) *State {
 	n := sig.Results().Len()
 	if n > 0 && isErrorType(sig.Results().At(n-1).Type()) {
 		var wn, we *State
+		rkey := e.vid(in)
+		if n > 1 {
+			rkey = fmt.Sprintf("%s#%d", e.vid(in), n-1)
+		}
 		for i, o := range outs {
+			// an outcome of unknown class whose state already knows the nil-ness of the result
+			// (modelled externals such as errors.New / fmt.Errorf)
+			if classes[i] == 2 {
+				if o.nonnil[rkey] {
+					classes[i] = 1
+				} else if o.isnil[rkey] {
+					classes[i] = 0
+				}
+			}
 			if classes[i] == 0 || classes[i] == 2 {
 				wn = joinOrClone(wn, o)
 			}
